@@ -143,6 +143,15 @@ theorem formatted_real_value_printed_precision (scis : List FmtReal.Sci)
       toks.map FmtReal.tokenNumber = scis.map FmtReal.sciNumberReal :=
   FmtReal.real_array_numbers scis h tail ht
 
+/-- IX flavour (`set_ix()`): the column holds the `snprintf` text itself (`d0.d1…dp E±xx`), for
+REAL (`p = 7`) and DOUB (`p = 13`); the number `strtod` recognises in the reader's token is the
+printed one. -/
+theorem formatted_ix_token_value (p : Nat) (s : FmtReal.Sci) (h : FmtReal.SciOk p s) (extra : List Char)
+    (hp : FmtReal.PlainExtra extra) :
+    Strtod.parseDec (EclFmt.cstr (FmtReal.sciText s ++ extra)) =
+      .num s.neg (EclFmt.decVal s.digits) (s.exp - p) (p + 1) :=
+  FmtReal.ix_token_value p s h extra hp
+
 /-- What follows an array inside a file meets the hypothesis `ht` of the two theorems above:
 the blank that starts the next header line, or the NUL padding at the end of the file. -/
 theorem formatted_tail_is_plain (r : List Char) :
